@@ -685,6 +685,16 @@ class Engine:
             return target
         # --- inlining of workspace callees
         callee_item = self.fb.lookup(t.get("resolved") or "") or self.fb.lookup(t.get("callee") or "")
+        # a call through Fn/FnMut/FnOnce on a closure value that is known on this path (e.g. a closure passed to a generic helper
+        # that was inlined): evaluate the closure's body with the untupled arguments
+        if callee_item is None and re.search(r"ops::(function::)?Fn(Mut|Once)?(<.*>)?::call(_mut|_once)?$", name.split("@")[0]) and len(raw_args) == 2:
+            cv = self.value_of(st, raw_args[0])
+            av = self.value_of(st, raw_args[1])
+            if isinstance(cv, tuple) and cv and cv[0] == "closure" and isinstance(av, tuple) and av and av[0] == "tuple":
+                ci = self.fb.items.get(cv[1])
+                if ci is not None and ci.arg_count == 1 + len(av[1]) and not self.has_loops(ci) and self.count_returns(ci) <= INLINE_SWITCHES and depth < self.max_depth:
+                    callee_item = ci
+                    raw_args = [cv] + list(av[1])
         if callee_item is not None and callee_item.path != item.path and self.should_inline(callee_item, depth):
             if target is None:
                 self.npaths += 1
